@@ -551,6 +551,26 @@ class K{base}:
         return 7
 OPS = [("new", (-1,), {{}}), ("new", (1,), {{}}), ("call", "get")]
 ''',
+    "descriptor-only-defined-for-instances": '''
+class PerInstance:
+    """A descriptor which is only defined for instances (like the relation attributes of ORMs): reading it on the class fails."""
+    def __set_name__(self, owner, name):
+        self.name = name
+    def __get__(self, instance, owner=None):
+        if instance is None:
+            raise AttributeError("{{}} is only available on instances".format(self.name))
+        return instance.__dict__.get("_" + self.name, 0)
+    def __set__(self, instance, value):
+        instance.__dict__["_" + self.name] = value
+{deco}
+class K{base}:
+    amount = PerInstance()
+    def __init__(self, amount=1):
+        self.amount = amount
+    def double(self):
+        return self.amount * 2
+OPS = [("new", (3,), {{}}), ("call", "double"), ("getattr", "amount"), ("setattr", "amount", 5), ("call", "double")]
+''',
     "singleton-new": '''
 {deco}
 class K{base}:
